@@ -397,8 +397,8 @@ def cholesky_backward(c, m, br):
                     sd = sd + td[(p, k)] * lent(b, q, k) + lent(b, p, k) * td[(q, k)]
             rhs = rhs + R.at(b + [z3.IntVal(p), z3.IntVal(q)]) * sd
             if q < p:
-                c.prove_identity(f"cholesky_backward.symmetric[{p},{q}]", R.at(b + [z3.IntVal(p), z3.IntVal(q)]), R.at(b + [z3.IntVal(q), z3.IntVal(p)]))
-    c.prove_identity("cholesky_backward.is_gradient_wrt_Sigma", lhs, rhs)
+                c.prove_identity(f"cholesky_backward.symmetric[{p},{q}]", R.at(b + [z3.IntVal(p), z3.IntVal(q)]), R.at(b + [z3.IntVal(q), z3.IntVal(p)]), cas_first=m >= 2)
+    c.prove_identity("cholesky_backward.is_gradient_wrt_Sigma", lhs, rhs, cas_first=m >= 2)
     c.prove("cholesky_backward.upstream_gradient_not_modified", Gc.at(b + [z3.IntVal(0), z3.IntVal(0)]) == G.at(b + [z3.IntVal(0), z3.IntVal(0)]))
 
 
@@ -492,7 +492,7 @@ def tril_natural_backward(c, m, br):
     c.prove("tril.backward.d_eta1_handed_through", o1.at(b + [z3.IntVal(0)]) == dn1.at(b + [z3.IntVal(0)]))
     for p in range(m):
         for q in range(m):
-            c.prove_identity(f"tril.backward.pushforward[{p},{q}]", o2.at(b + [z3.IntVal(p), z3.IntVal(q)]), td[(p, q)] if q <= p else z3.RealVal(0))
+            c.prove_identity(f"tril.backward.pushforward[{p},{q}]", o2.at(b + [z3.IntVal(p), z3.IntVal(q)]), td[(p, q)] if q <= p else z3.RealVal(0), cas_first=m >= 2)
 
 
 def replay_natural(model, params, clause, info):
